@@ -1,0 +1,18 @@
+//go:build verif
+
+package templates
+
+// Machine-checked contracts for the gocv verifier (/verif/DESIGN.md). Comments only.
+
+// C19 (doc comments are carried over verbatim): prefixLines puts the prefix in front of EVERY line of the text,
+// empty ones included - an empty `//` line must stay a comment line, otherwise a multi-paragraph doc comment is cut
+// in two and its first part is lost at the next regeneration. replAll stands for strings.ReplaceAll.
+//@ spec replAll(string, string, string) string
+//@ trusted strings.ReplaceAll(s, old, new) (r)
+//@   ensures r == replAll(s, old, new)
+//@   nopanic
+//@   pure
+//@ func prefixLines [C19]
+//@   ensures res0 == prefix + replAll(s, "\n", "\n" + prefix)
+//@   nopanic
+//@   pure
